@@ -31,6 +31,7 @@ type mon struct {
 	prevState  string
 	claimed    map[string]bool // block ids some peer claimed a majority for (accepted claims)
 	mst        []mstEntry      // signatures of the multi-sign transaction under construction (wide.go)
+	fsm        fsMon           // fast-sync case under construction (fsyncmon.go)
 	// pending commit
 	hasC   bool
 	cbid   bidT
@@ -443,7 +444,9 @@ func (P) Monitor(c *hx.CaseRun) []hx.Failure {
 			}
 			sb[ans] = t
 		default:
-			m.wideMon(toks, op, ans, panicked, site)
+			if !m.fsMonOp(toks, op, ans, panicked, site) {
+				m.wideMon(toks, op, ans, panicked, site)
+			}
 		}
 	}
 	return m.fs
